@@ -73,11 +73,22 @@ pub proof fn lemma_quote_lits()
     assert("'"@ =~= seq!['\'']); assert("&"@ =~= seq!['&']); assert("|"@ =~= seq!['|']); assert(""@ =~= Seq::<char>::empty());
 }
 
-// parser_line::trim_command: the command text without the unescaped ASCII blanks around it (char-vector loop with slices: left uninterpreted here;
-// an escaped blank at the end stays -- exercised by the bounded argv cases)
-pub uninterp spec fn spec_trim_cmd(s: Seq<char>) -> Seq<char>;
+// ---- parser_line::trim_command (C01): the blanks around a command are not part of it -- except a trailing blank that is escaped ----
+pub open spec fn blank(c: char) -> bool { c == ' ' || c == '\t' || c == '\n' || c == '\r' }
+// number of consecutive backslashes at positions p, p-1, ... (not below lo)
+pub open spec fn bs_run(s: Seq<char>, lo: int, p: int) -> int
+    decreases p - lo + 1
+{
+    if p >= lo && p < s.len() && s[p] == '\\' { 1 + bs_run(s, lo, p - 1) } else { 0 }
+}
 #[verifier::external_body]
-pub fn trim_command(text: &str) -> (r: String) ensures r@ == spec_trim_cmd(text@) { unimplemented!() }
+pub fn vx_is_blank(c: char) -> (r: bool) ensures r == blank(c) { c == ' ' || c == '\t' || c == '\n' || c == '\r' }
+#[verifier::external_body]
+pub fn vx_collect_range(v: &Vec<char>, a: usize, b: usize) -> (r: String)
+    requires a <= b <= v@.len()
+    ensures r@ == v@.subrange(a as int, b as int)
+{ v[a..b].iter().collect() }
+//@FN trim_command
 #[verifier::external_body]
 pub fn vx_quote_chars() -> (r: Vec<char>) ensures r@ == seq!['"', '\''] { vec!['"', '\''] }
 #[verifier::external_body]
@@ -151,6 +162,29 @@ tokens_to_args = Fn(P, 'tokens_to_args', ret='r', let_types={'result': 'Vec<Stri
 line_to_plain_tokens = Fn(P, 'line_to_plain_tokens', ret='r', let_types={'result': 'Vec<String>'},
                           loop_kinds={0: 'value', (0, 'clone'): 'vx_clone_token(&{})'})
 wrap_sep_string = Fn('src/tools.rs', 'wrap_sep_string', ret='r', loop_kinds={0: 'chars'})
+trim_command = Fn(P, 'trim_command', ret='r', props=('C01',),
+    pre_rewrites=[Rw(r"let is_blank = \|c: char\| [^;]*;", '', regex=True, rule='R11', why='local closure (the four ASCII blanks) replaced by a shim with the same definition'),
+                  Rw('is_blank(', 'vx_is_blank(', rule='R11'),
+                  Rw('text.chars().collect()', 'vx_chars(text)', rule='R2'),
+                  Rw('chars[start..end].iter().collect()', 'vx_collect_range(&chars, start, end)', rule='R12', why='slice of the char vector collected into a String')],
+    let_types={'start': 'usize', 'end': 'usize', 'backslashes': 'usize'},
+    ensures=[
+        # C01: what is cut off are blanks -- at the front all of them, at the end only UNESCAPED ones (an odd run of backslashes in front of a blank makes it an argument character)
+        ('C01+C05.trim_command.only_unescaped_blanks_around_the_command_are_cut',
+         'exists|a: int, b: int| 0 <= a <= b <= text@.len() && r@ == text@.subrange(a, b) '
+         '&& (forall|i: int| 0 <= i < a ==> blank(#[trigger] text@[i])) && (a < text@.len() ==> a == b || !blank(text@[a])) '
+         '&& (forall|i: int| b <= i < text@.len() ==> blank(#[trigger] text@[i]) && bs_run(text@, a, i - 1) % 2 == 0) '
+         '&& (b > a && blank(text@[b - 1]) ==> bs_run(text@, a, b - 2) % 2 == 1)'),
+    ],
+    loops={
+        0: Loop(invariant=[('C01.inv.trim.front', 'chars@ == text@ && start <= chars@.len() && forall|i: int| 0 <= i < start ==> blank(#[trigger] text@[i])')], decreases='chars@.len() - start'),
+        1: Loop(invariant=[('C01.inv.trim.back', 'chars@ == text@ && start <= end <= chars@.len() && (start < chars@.len() ==> start == end || !blank(text@[start as int]) || start == chars@.len()) '
+                                               '&& forall|i: int| end <= i < text@.len() ==> blank(#[trigger] text@[i]) && bs_run(text@, start as int, i - 1) % 2 == 0')],
+                invariant_except_break=[], ensures=[('C01.inv.trim.stop', 'end == start || !blank(text@[end - 1]) || bs_run(text@, start as int, end - 2) % 2 == 1')], decreases='end'),
+        2: Loop(invariant=[('C01.inv.trim.run', 'chars@ == text@ && start < end <= chars@.len() && backslashes <= end - 1 - start '
+                                              '&& bs_run(text@, start as int, end - 2) == backslashes + bs_run(text@, start as int, end - 2 - backslashes)')], decreases='end - backslashes'),
+    },
+)
 unquote = Fn(P, 'unquote', ret='r',
     pre_rewrites=[Rw("for &c in ['\"', '\\''].iter() {", "let __q = vx_quote_chars(); for c in __q.iter() { let c = *c;", rule='R12', why='iteration over a two-element char array literal through a Vec with those two elements'),
                   Rw('new_str.remove(0);', 'vx_remove_first(&mut new_str);', rule='R12', why='String::remove(0): requires a non-empty string (panics otherwise)'),
@@ -164,7 +198,7 @@ unquote = Fn(P, 'unquote', ret='r',
                                                      'assert(text@.len() == 1 ==> text@.drop_first() =~= text@.subrange(1, 1));'})
 
 UNIT = Unit('U-TOK', TEMPLATE,
-            fns=[Fn('src/types.rs', 'new', impl='LineInfo'), wrap_sep_string, tokens_to_args, tokens_to_line, unquote, line_to_cmds,
+            fns=[Fn('src/types.rs', 'new', impl='LineInfo'), wrap_sep_string, tokens_to_args, tokens_to_line, unquote, trim_command, line_to_cmds,
                  parse_line, line_to_plain_tokens],
             types=[TypeItem('src/types.rs', 'struct', 'LineInfo')],
             props=('C05', 'C01', 'C03'))
